@@ -248,7 +248,7 @@ def run(ctx: Ctx) -> None:
     # ------------------------------------------------------------------ 2. spec -> code: impose edge covers
     rng = random.Random(ctx.seed + 15)
     traces = {}
-    n_plans = n_panic = 0
+    n_plans = n_panic = n_hangs = n_skipped = 0
     budget = 260 if q else 6000
     per = max(4, budget // max(1, len(graphs)))
     for T, N, dot in graphs:
@@ -279,9 +279,13 @@ def run(ctx: Ctx) -> None:
             steps = plan_from_path(path, g.nodes, init_id)
             if drop == 0:
                 steps = ["drop"] + [s for s in steps if s != "drop"]
+            if n_hangs >= 6:
+                n_skipped += 1      # every hang costs the harness' 20 s watchdog; six witnesses are enough
+                continue
             rc, log = run_harness(T, N, steps)
             n_plans += 1
             n_panic += bool(panics)
+            n_hangs += any(l[0] == "hang" for l in log)
             for kind, what in judge_log(log, T, N, panics, drop):
                 sig = f"C15|kind={kind}|panic={'yes' if panics else 'no'}"
                 ctx.violation(sig, f"parallel_map T={T} N={N} panics={panics} drop_after={drop}: {what}",
@@ -297,6 +301,8 @@ def run(ctx: Ctx) -> None:
                 ctx.sample({"kind": "completion order imposed on the real parallel_map", "T": T, "N": N,
                             "panics": panics, "drop_after": drop, "steps": steps, "log": [" ".join(l) for l in log]})
     ctx.cov["plans_imposed_on_real_parallel_map"] = n_plans
+    if n_skipped:
+        ctx.cov["plans_skipped_after_six_hangs"] = n_skipped
     ctx.cov["plans_with_panicking_item"] = n_panic
 
     # ------------------------------------------------------------------ 3. code -> spec: validate the logs
